@@ -599,6 +599,7 @@ def _run(run):
 
     # ---- the two handshake receivers of the server
     hs_run(run, hello, shello)
+    SL.registry_unit(run, 400 if run.thorough() else 80)
     run.rules.append(RULE)
 
 
